@@ -164,6 +164,21 @@ CHECKS = {
             "Three open known findings (greedy step, its consequences, shared selectors) are "
             "classified narrowly; the classifier embeds a transcription of the shipped greedy.",
             "DESIGN.md 4/C20"),
+    'C12': ("Hypothesis-generated models with arbitrary real mask / coefficient values; finiteness, "
+            "autograd-vs-forward-difference probes, weight/data perturbation (metamorphic) and "
+            "component-wise monotonicity oracles",
+            "Generated-input search over PIT, SuperNet and MPS models (and ODiMO_MPS with its "
+            "defaults) with every applicable built-in metric: cost finite and >= 0, gradients to "
+            "architectural parameters finite, none to weights/biases, non-zero wherever a forward "
+            "difference shows that raising the parameter raises the metric (continuous cost: small "
+            "step; discrete cost: step across the binarisation threshold vs straight-through "
+            "gradient), bit-equal cost after perturbing all weights/BN statistics and changing the "
+            "input, PIT cost(p) <= cost(q) for |p| <= |q| component-wise, open masks == original "
+            "model. Two open known findings (float-input MPS layers, ODiMO cost) are classified "
+            "narrowly.",
+            "Probes skip |p| < 1e-3; Gumbel off; ODiMO clauses beyond 'can be evaluated' are not "
+            "exercised while its cost raises (known finding).",
+            "DESIGN.md 4/C12"),
 }
 
 NOT_YET = "check not built yet in this session; planned with property-based testing per DESIGN.md section 4"
